@@ -93,13 +93,25 @@ struct Case {
 
 // ---------------------------------------------------------------------------------------------
 // independent dual-number evaluator (textbook rules, own code; nothing shared with Opm)
+// `e[i]` is the conditioning of derivative i: the sum of the ABSOLUTE values of all chain-rule terms that
+// were added up (|fx||x'| + |fy||y'|, recursively).  Where the terms cancel (atan2(s*x, x): x'y - xy' = 0
+// exactly in the implementation's formula, rounding noise of size eps*e in the textbook form) the two
+// evaluations can only be compared relative to e, not relative to the (tiny) result.
 struct Ref {
-    double v = 0; std::vector<double> d;
+    double v = 0; std::vector<double> d, e;
     Ref() {}
-    Ref(int n, double c) : v(c), d(n, 0.0) {}
+    Ref(int n, double c) : v(c), d(n, 0.0), e(n, 0.0) {}
 };
-Ref chain(const Ref& x, double f, double df) { Ref r; r.v = f; r.d.resize(x.d.size()); for (size_t i = 0; i < x.d.size(); ++i) r.d[i] = df * x.d[i]; return r; }
-Ref chain2(const Ref& x, const Ref& y, double f, double fx, double fy) { Ref r; r.v = f; r.d.resize(x.d.size()); for (size_t i = 0; i < x.d.size(); ++i) r.d[i] = fx * x.d[i] + fy * y.d[i]; return r; }
+Ref chain(const Ref& x, double f, double df) {
+    Ref r; r.v = f; r.d.resize(x.d.size()); r.e.resize(x.d.size());
+    for (size_t i = 0; i < x.d.size(); ++i) { r.d[i] = df * x.d[i]; r.e[i] = std::fabs(df) * x.e[i]; }
+    return r;
+}
+Ref chain2(const Ref& x, const Ref& y, double f, double fx, double fy) {
+    Ref r; r.v = f; r.d.resize(x.d.size()); r.e.resize(x.d.size());
+    for (size_t i = 0; i < x.d.size(); ++i) { r.d[i] = fx * x.d[i] + fy * y.d[i]; r.e[i] = std::fabs(fx) * x.e[i] + std::fabs(fy) * y.e[i]; }
+    return r;
+}
 
 bool refEval(const Case& c, std::vector<Ref>& val, int upto = -1) {
     const int n = c.n;
@@ -112,8 +124,8 @@ bool refEval(const Case& c, std::vector<Ref>& val, int upto = -1) {
         const double s = c.ss.empty() ? 0.0 : c.ss[nd.k % c.ss.size()];
         Ref r;
         switch (nd.op) {
-        case X: { const auto& x = c.xs[nd.k]; r.v = x[0]; r.d.assign(x.begin() + 1, x.end()); break; }
-        case VAR: r = Ref(n, s); r.d[nd.pos] = 1.0; break;
+        case X: { const auto& x = c.xs[nd.k]; r.v = x[0]; r.d.assign(x.begin() + 1, x.end()); r.e.resize(r.d.size()); for (size_t q = 0; q < r.d.size(); ++q) r.e[q] = std::fabs(r.d[q]); break; }
+        case VAR: r = Ref(n, s); r.d[nd.pos] = 1.0; r.e[nd.pos] = 1.0; break;
         case CONST: r = Ref(n, s); break;
         case ADD: r = chain2(*a, *b, a->v + b->v, 1, 1); break;
         case SUB: r = chain2(*a, *b, a->v - b->v, 1, -1); break;
@@ -693,7 +705,8 @@ int main(int argc, char** argv) {
             if (hexVec(rD) != hexVec(rL)) log.fail("variants-disagree.dynamic-vs-generic", describe('D', c) + " D=" + hexVec(rD) + " L=" + hexVec(rL)); else log.ok();
             bool good = (int) rU.size() == n + 1 && close(rU[0], ref.v, 1e-9, 1e-6);
             int bad = good ? -1 : 0;
-            for (int j = 0; good && j < n; ++j) if (!close(rU[j + 1], ref.d[j], 1e-8, 1e-5)) { good = false; bad = j + 1; }
+            for (int j = 0; good && j < n; ++j)
+                if (!close(rU[j + 1], ref.d[j], 1e-8, 1e-5) && !(std::fabs(rU[j + 1] - ref.d[j]) <= 1e-10 * ref.e[j])) { good = false; bad = j + 1; }
             if (!good) log.fail("dual-evaluator-disagrees", describe(n <= 12 ? 'U' : 'L', c) + " slot=" + std::to_string(bad) + " real=" + hexVec(rU) + " ref.v=" + vh::hexF64(ref.v) + " ref.d=" + hexVec(ref.d));
             else log.ok();
         }
